@@ -107,6 +107,7 @@ func main() {
 		}
 	} else {
 		retypeArrayDefaults(rp.Input.Design)
+		renameShadowedExtendAttrs(rp.Input.Design)
 		bu, oc := b.Add(rp.Input.Design, extract)
 		if bu == nil {
 			panic(fmt.Sprintf("replay design rejected: %v %s", oc.Err, oc.Panic))
@@ -154,6 +155,7 @@ func main() {
 	opts.ExoticVerbs = true
 	for i := 0; len(b.Items) < nDesigns+nFixedDesigns && i < nDesigns*3; i++ {
 		d := designgen.Random(rng.Fork(), opts, i)
+		renameShadowedExtendAttrs(d)
 		wr := rng.Fork()
 		widenAliasParams(wr, d)
 		widenCatchAll(wr, d)
